@@ -15,6 +15,38 @@ type PropSpec struct {
 }
 
 var properties = map[string]PropSpec{
+	"C16": {
+		Level: "other",
+		Explanation: "Marshal returns normally for every []any and ends in 'error, or an initialised receiver'. PANIC: the nil / type-assertion / bounds / reflect census restricted to everything reachable from Marshal, with preconditions checked at every call site and none allowed at the exported entry: in[0], in[1:], the CONDITION row positions 1..3 and every assertion on a label, keyword, operator or nested slice are guarded for every shape of input (empty and nested envelopes, rows of any width, wrongly typed fields). OUT: marshalDefault's 70-odd return path states each yield a non-nil error, a Stack built by a constructor, or a Condition for which extractConditionValues reported ok (= IsInit() of the Condition it returns, built only from a row of width 4); Marshal's return paths each yield a non-nil error, a receiver seated with the decoded Stack under IsInit()==true, marshalDefault's own error where it produced nothing, or - receiver already initialised - at most one Push of exactly one decoded value. LABEL: every keyword comparison is made on uc(label); the reader knows every word the writer can emit and CONDITION; an unrecognised first element yields Basic().Push(in...), a recognised one stackByWord(label).Push(in[1:]...). ROW: width 4 is required and keyword/operator/expression are read from positions 1/2/3 by checked assertions. REPROC: every nested []any entry 0..Len-1 is decoded by marshalDefault itself and replaced in place by the initialised Stack/Condition it yields.",
+		NotDecided: "that String/Unmarshal/IsEqual on the result return normally is C08's census (whole package, same rules); what a user-installed marshaler closure does.",
+		Run: func(c *Ctx) {
+			c.ruleInv()
+			if root := c.anchor("R-MARSHAL", "(*Stack).Marshal"); root != nil {
+				c.ruleCensus(c.reach(root), map[string]bool{"R-NIL": true, "R-REFL": true, "R-TA": true, "R-BND": true})
+			}
+			c.ruleLabels()
+			c.ruleCondRow()
+			c.ruleMarshalReproc()
+			c.ruleMarshalOut()
+			c.rep.floor("R-MARSHAL", 5)
+			c.rep.floor("R-TBL", 6)
+			c.rep.floor("R-BND", 5)
+		},
+	},
+	"C04": {
+		Level: "other",
+		Explanation: "Writer (Unmarshal) and reader (Marshal) agree on the wire format - the structural precondition of the round trip. KINDS: constructor -> kind constant -> word (stackType.String) -> constructor (stackByWord) is the identity on AND, OR, NOT, LIST, BASIC, the words are upper case, and the reader's dispatch knows each of them and CONDITION. LABEL: every keyword comparison on the reader side is made on uc(label), so the lower-case words a case-folded stack emits are honoured. WRITE: stack.unmarshalDefault emits the kind word first and then exactly one entry per slot 0..Len-1 in ascending order - nil slots included (no dependence on the lookup's found flag) - a nested Stack or Condition (recognised through both alias converters) as its own unmarshalled form, anything else as is; an error ends the loop. ROW: a Condition is written as [CONDITION, keyword, operator, expression-or-its-Unmarshal()] and read back from a row of width 4, positions 1/2/3, by checked assertions, the expression decoded by marshalDefault when it is a slice. REPROC: the reader re-processes every entry 0..Len-1 of the stack it built and replaces entry i only by the initialised Stack/Condition marshalDefault made of that very entry.",
+		NotDecided: "that Marshal(Unmarshal(S)) is deeply equal to S (value equality over trees; options such as capacity, fold or symbols are not part of the wire format by design); user-installed marshaler/unmarshaler closures.",
+		Run: func(c *Ctx) {
+			c.ruleInv()
+			c.ruleLabels()
+			c.ruleCondRow()
+			c.ruleUnmarshalLoop()
+			c.ruleMarshalReproc()
+			c.rep.floor("R-TBL", 7)
+			c.rep.floor("R-MARSHAL", 1)
+		},
+	},
 	"C15": {
 		Level: "other",
 		Explanation: "R-XFER, decided on Stack.Transfer and its worker. SRC: the transitive write sets of both have no location rooted at the source (content, configuration, lock bookkeeping), and an element is pushed only in states where destination != source is established (a stack is never transferred into itself). GUARD: the worker is reached only for an initialised source, a destination the converter accepts (native, alias, pointer) and a destination whose own read-only flag is clear; its verdict is returned and every other path returns false; the worker receives (source, converted destination). FIT: a push is reachable only on paths where the destination has no capacity or Len(src) <= cap(dst) - len(dst) holds for the headers found (linear entailment), so a transfer that does not fit writes nothing and reports false. ALL: the copy loop runs i = 0, 1, ... while i < Len(src), pushes exactly src.index(i) - whether or not the lookup reports it found, so nil elements are copied - once per iteration, and nothing else in the worker writes. TRUE: the verdict is dst.ulen() after the loop == dst.ulen() before it + src.ulen(). R-NIL/R-REFL/R-BND census over Transfer's scope (zero, foreign and typed-nil destinations cannot panic).",
